@@ -7,6 +7,10 @@ HERE = os.path.dirname(os.path.dirname(os.path.abspath(__file__)))
 
 # id -> (engine, technique, level text, level note, design ref)
 CHECKS = {
+    "C05": ("XH", "CrossHair-driven exhaustive enumeration (z3 choice variables for first item / trailing delimiter / separator style, native sweep of the remaining items); real parser with default cleanup",
+            "bounded exhaustive exploration with exhaustion certificate: all 8 legal ListProds option combinations, 4 MapProds combinations and ProdSequence over containers of <= 3 items "
+            "from a pool of nested values (depth 3, repeated keys), 4 separator styles, final delimiter and absent container",
+            "structural property: the solver enumerates; nullable list items outside the claim", "DESIGN.md 3/C05"),
     "C04": ("XH", "CrossHair symbolic execution of the real tokenizer/parser/get_orig_text with the regex engine stubbed (symbolic match ends and token kinds, symbolic line strings); "
             "solver-enumerated concrete texts through the real regex as second front end and as replay",
             "bounded model checking: all line lengths, token boundaries, blank lines, skipped text and span closings within <= 3 lines / <= 3-5 matcher calls (symbolic), "
